@@ -117,6 +117,64 @@ pub fn total_and_finite(c: &Case, cs: &mut CaseStats) -> Result<(), String> {
     Ok(())
 }
 
+/// Clause 4 ("ties are resolved by exact arithmetic so that the local geometry of different cells
+/// is globally consistent"), made executable at the level of the mechanism: the builder's clip
+/// sequence of a few cells is replayed through the hooks (`nn_sequence`, `cell_clip`, the same
+/// termination rule), and before every clip the decision of the floating point filter for every
+/// vertex is compared with the decision of the exact predicate on the snapped generators (hook
+/// `clip_decisions`). Wherever the filter claims to know (non-zero), it must remove the vertex iff
+/// the exact predicate does: otherwise this cell decides by rounding what its neighbours decide
+/// exactly.
+pub fn clip_consistency(c: &Case, cs: &mut CaseStats) -> Result<(), String> {
+    use glam::DVec3;
+    use meshless_voronoi::HalfSpace;
+    let n = c.n();
+    let (a, w) = (DVec3::from_array(c.eff_anchor()), DVec3::from_array(c.eff_width()));
+    let grid = hooks::Grid::new(a, w, c.periodic, c.dimensionality());
+    let gens = hooks::make_generators(&c.gens_v(), c.dimensionality());
+    let active: Vec<usize> = (0..n).filter(|&i| c.mask.as_ref().map_or(true, |m| m[i])).collect();
+    if active.is_empty() {
+        return Ok(());
+    }
+    // up to 6 cells, spread over the constructed ones (deterministic function of the case)
+    let h = c.hash64() as usize;
+    let picks: std::collections::BTreeSet<usize> = (0..6usize).map(|k| active[(h / 7usize.pow(k as u32) + k * active.len() / 6) % active.len()]).collect();
+    for i in picks {
+        let seq = hooks::nn_sequence(&c.gens_v(), i, c.dimensionality(), c.periodic, w, usize::MAX);
+        let loc = gens[i].loc();
+        let mut cell = hooks::cell_init(loc, i, &grid);
+        for (j, s) in seq.iter().skip(1) {
+            let ngb = gens[*j].loc() + s.unwrap_or(DVec3::ZERO);
+            let dx = loc - ngb;
+            let dist = dx.length();
+            if hooks::cell_safety_radius(&cell) < dist {
+                break;
+            }
+            let hs = HalfSpace::new(dx / dist, 0.5 * (loc + ngb), Some(*j), *s);
+            for (k, (filter, exact)) in hooks::clip_decisions(&cell, &hs, &gens, &grid).into_iter().enumerate() {
+                cs.count("clip_decisions_compared", 1);
+                if filter == 0. {
+                    cs.count("clip_decisions_left_to_the_exact_predicate", 1);
+                } else if (filter < 0.) != (exact < 0.) {
+                    let v = &cell.vertices[k];
+                    return Err(format!(
+                        "cell {i}, clip by generator {j} shift {:?}: the floating point filter decides {} for the vertex on planes {:?} at {:?} (n.(v-p) = {:e}), the exact predicate on the snapped generators decides {}: the cell's topology is not the one its neighbours see",
+                        s,
+                        if filter < 0. { "REMOVE" } else { "KEEP" },
+                        v.dual,
+                        v.loc,
+                        hs.plane.n.dot(v.loc - hs.plane.p),
+                        if exact < 0. { "REMOVE" } else if exact == 0. { "KEEP (exact tie)" } else { "KEEP" }
+                    ));
+                }
+            }
+            hooks::cell_clip(&mut cell, hs, &gens, &grid);
+        }
+        cs.count("cells_replayed_clip_by_clip", 1);
+    }
+    Ok(())
+}
+
 /// Clause 3: the returned values satisfy C01-C04 (their oracles, unchanged, on the degenerate
 /// stream). Labels and counters of the sub-oracles are merged under a prefix.
 fn sub_oracle(name: &str, f: crate::runner::CheckFn, c: &Case, cs: &mut CaseStats) -> Result<(), String> {
@@ -161,6 +219,7 @@ pub fn check(c: &Case, cs: &mut CaseStats) -> Result<(), String> {
     }
     sub_oracle("C03", super::c03::check, c, cs)?;
     sub_oracle("C04", super::c04::check, c, cs)?;
+    clip_consistency(c, cs)?;
     if cs.labels.contains("exact-path") || cs.labels.contains("gen-on-wall") || n == 1 || cs.labels.contains("separation<=1e-9L") {
         cs.nt();
     }
